@@ -11,7 +11,7 @@ NOTE_T3 = ('T3 (bounded): real functions imported from /repo, independent dense 
 
 P('C01', 'other',
   ['props.shape', 'props.ranks', 'props.erank', 'act_one.copy.tt', 'act_one.copy.scalar', 'act_one.get', 'act_two.add.tt_tt',
-   'act_two.mul.num_tt', 'act_two.mul.tt_num', 'act_two.sub.tt_tt', 'act_two.outer', 'tensors.const.plain', 'act_one.mean', 'act_one.sum', 'lemmas.spotcheck', 'lemmas.TTAlg'], 60,
+   'act_two.mul.num_tt', 'act_two.mul.tt_num', 'act_two.mul.tt_tt', 'act_two.mul_scalar', 'act_one.norm', 'act_two.sub.tt_tt', 'act_two.outer', 'tensors.const.plain', 'act_one.mean', 'act_one.sum', 'lemmas.spotcheck', 'lemmas.TTAlg'], 60,
   ['L-SUMPROD (sum over all multi-indices of a product chain = chain of the mode sums)'],
   'Contract-based: get (loop invariant Q = partial chain => result = val(Y,i)), add tensor+tensor (block-core invariant, '
   'inductive chain lemma => wf, shape, ranks add up, val(result,i) = val(Y1,i)+val(Y2,i) for all d, shapes, ranks), '
@@ -124,7 +124,7 @@ P('C10', 'proof', ['frames.C10', 'utils._rand'], 90, [],
 
 P('C11', 'other',
   ['transformation.orthogonalize', 'act_two.add.tt_tt', 'svd.matrix_svd', 'svd.matrix_skeleton.abs.m',
-   'transformation.truncate.eigh', 'transformation.truncate.svd', 'svd.svd', 'props.erank', 'act_two.accuracy',
+   'transformation.truncate.eigh', 'transformation.truncate.svd', 'svd.svd', 'props.erank', 'act_two.accuracy', 'act_one.norm',
    'sig.svd', 'sig.transformation', 'sig.act_one', 'sig.act_two', 'sig.core', 'sig.anova', 'sig.anova_func', 'sig.cross', 'sig.als'], 40, [],
   'Contract-based (all shapes incl. d=2, n=1, r=1, over-ranked): well-formedness of the results of orthogonalize, add, truncate; '
   'safety obligations: every division / sqrt in matrix_svd (the guarded inverse), erank (a != 0 for d>=3), accuracy (sentinel -1 '
@@ -152,7 +152,7 @@ P('C15', 'other', ['optima.optima_tt', 'optima.optima_tt_max', 'sig.optima', 'si
   'arg-optima for full beams and rank-1 tensors, quantised and functional variants. Known finding: optima_tt rank-1 with pruned beam.',
   NOTE_T1 + NOTE_T3, 'deductive VCs + bounded dense comparison', [])
 
-P('C16', 'other', ['core.core_stab', 'transformation.orthogonalize.stab', 'transformation.truncate.eigh.stab', 'act_two.mul_scalar.stab', 'act_one.norm.stab',
+P('C16', 'other', ['core.core_stab', 'core.core_stab.matrix', 'transformation.orthogonalize.stab', 'transformation.truncate.eigh.stab', 'act_two.mul_scalar.stab', 'act_one.norm.stab',
                    'act_two.accuracy'], 20, [],
   'Contract-based (bookkeeping over the reals): core_stab (mantissa in [1,2), integer exponent, input = 2^p mantissa), exponent '
   'accumulation in mul_scalar, (sqrt v, p/2) in norm, exponent difference and saturation branches of accuracy. Bounded: d up to '
